@@ -69,6 +69,8 @@ PT_POOL = [0, 1, 1, 2, 3, 4, 5, 6, 7, 0x60000000, 0x6fffffff, 0x6474e550, 0x6474
 NAMES = [b'', b'.text', b'.data', b'.bss', b'.stab', b'.stabstr', b'.shstrtab', b'.symtab', b'.strtab', b'.rela.text',
          b'.dynamic', b'.note.gnu.build-id', b'.ARM.attributes', b'.riscv.attributes', b'.hash', b'.gnu.hash',
          '.däta'.encode(), 'секция'.encode(), '.漢字'.encode(), '.\U0001f600x'.encode(),
+         ('.' + 'a' * 62 + 'étail').encode(), ('.' + 'b' * 61 + '漢字').encode(), ('.' + 'c' * 62 + '\U0001f600x').encode(),
+         ('.' + 'd' * 126 + 'é' + 'ж' * 40).encode(), ('x' + 'ж' * 100).encode(),     # a multi-byte character across byte 64*k
          b'.zdebug_info', b'.zdebug_str', b'.debug_info', b'.zdebug_line', b'.interp',
          b'x', b'.stab ', b'.sta', b'.STAB', b'a' * 63, b'b' * 64, b'c' * 65, b'.long' + b'n' * 130]
 
@@ -186,7 +188,11 @@ def make_case(rng, opts=None):
             m = max(m, 1)
     if 'long_name' in o and n > 1:
         L = o['long_name']
-        names[rng.randrange(1, n)] = (b'.long_' + bytes(rng.choice(b'abcdefgh_.') for _ in range(L)))[:L]
+        if o.get('long_non_ascii'):
+            raw = ('.long_' + ''.join(rng.choice('abcdéжд漢_.') for _ in range(L))).encode()[:L]
+            names[rng.randrange(1, n)] = raw.decode('utf-8', errors='ignore').encode()       # whole characters only
+        else:
+            names[rng.randrange(1, n)] = (b'.long_' + bytes(rng.choice(b'abcdefgh_.') for _ in range(L)))[:L]
     strbody = bytearray(bytes([rng.choice([0, 0, 0x41, 0xff])]))
     offs = {}
     sh_names = []
@@ -460,7 +466,8 @@ def expand_longname(a):
     strings of any length; the chunked reader must not give up)"""
     _, idx, is64, le, seed = a
     r = random.Random(seed)
-    return make_case(r, dict(is64=bool(is64), le=bool(le), n=r.choice([2, 3, 5]), long_name=LONG_NAMES[idx % len(LONG_NAMES)]))
+    return make_case(r, dict(is64=bool(is64), le=bool(le), n=r.choice([2, 3, 5]), long_name=LONG_NAMES[idx % len(LONG_NAMES)],
+                             long_non_ascii=(idx % len(LONG_NAMES)) >= 3))
 
 
 def expand_anchor(a, anchors):
@@ -635,6 +642,26 @@ def _obs_segment(g):
     return [_flat_header(g.header), type(g).__name__]
 
 
+def _scramble(objs):
+    """the caller edits, in place, the header containers it was given (rebasing addresses, zeroing sizes, ...): what
+    the library reports afterwards must still be what the bytes encode.  Called after the observation was taken."""
+    for o in objs:
+        h = o.header
+        for k in list(h.keys()):
+            v = h[k]
+            if isinstance(v, int) and not isinstance(v, bool):
+                h[k] = (v ^ 0x5a5a) + 1
+            elif isinstance(v, str):
+                h[k] = 'SCRAMBLED_' + v
+
+
+def _observe(objs, obs):
+    objs = list(objs)
+    out = [obs(x) for x in objs]
+    _scramble(objs)
+    return out
+
+
 def _impl_answer(elf, q, fresh):
     op = q[0]
     def wrap(f):
@@ -651,9 +678,9 @@ def _impl_answer(elf, q, fresh):
     if op == 'shstrndx':
         return wrap(elf.get_shstrndx)
     if op == 'sections':
-        return wrap(lambda: [_obs_section(s) for s in elf.iter_sections()])
+        return wrap(lambda: _observe(elf.iter_sections(), _obs_section))
     if op == 'segments':
-        return wrap(lambda: [_obs_segment(g) for g in elf.iter_segments()])
+        return wrap(lambda: _observe(elf.iter_segments(), _obs_segment))
     if op == 'section':
         return wrap(lambda: _obs_section(elf.get_section(q[1])))
     if op == 'segment':
@@ -800,10 +827,10 @@ def impl_history(elf, ops):
     for op in ops:
         def f():
             if op[0] == 'segs':
-                return [_obs_segment(g) for g in elf.iter_segments(type=None if op[1] == '<none>' else op[1])]
+                return _observe(elf.iter_segments(type=None if op[1] == '<none>' else op[1]), _obs_segment)
             if op[0] in ('take', 'iter'):
                 it = elf.iter_sections(type=None if op[1] == '<none>' else op[1])
-                return [_obs_section(s) for s in (itertools.islice(it, op[2]) if op[0] == 'take' else it)]
+                return _observe(itertools.islice(it, op[2]) if op[0] == 'take' else it, _obs_section)
             name = op[1].decode('utf-8')
             if op[0] == 'has':
                 return int(elf.has_section(name))
@@ -811,7 +838,7 @@ def impl_history(elf, ops):
                 i = elf.get_section_index(name)
                 return 'none' if i is None else ['some', i]
             s = elf.get_section_by_name(name)
-            return 'none' if s is None else ['some', _obs_section(s)]
+            return 'none' if s is None else ['some', _observe([s], _obs_section)[0]]
         try:
             out.append(['ok', f()])
         except Exception as e:      # noqa
